@@ -135,6 +135,7 @@ type (
 		updatedStreamsDuringTaggingJob bitmask.LongBitmask
 		resetStreamsDuringTaggingJob   bitmask.LongBitmask
 		addedStreamsDuringTaggingJob   bitmask.LongBitmask
+		tagEditedDuringTaggingJob      bool
 
 		streamsToConvert         map[string]*bitmask.LongBitmask
 		pcapProcessorWebhookUrls []string
@@ -752,6 +753,7 @@ outer:
 		mgr.updatedStreamsDuringTaggingJob = bitmask.LongBitmask{}
 		mgr.resetStreamsDuringTaggingJob = bitmask.LongBitmask{}
 		mgr.addedStreamsDuringTaggingJob = bitmask.LongBitmask{}
+		mgr.tagEditedDuringTaggingJob = false
 		mgr.taggingJobRunning = true
 		indexes, releaser := mgr.getIndexesCopy(0)
 		converters := make(map[string]index.ConverterAccess)
@@ -842,6 +844,11 @@ func (mgr *Manager) updateTagJob(name string, t tag, tagDetails map[string]query
 			t.referencedBy = ot.referencedBy
 			for _, converter := range t.converters {
 				mgr.streamsToConvert[converter.Name()].Or(t.Matches)
+			}
+			if mgr.tagEditedDuringTaggingJob && len(t.referencedTags()) != 0 {
+				// a tag was edited while this job ran: what the edit made undecided for this tag
+				// (through its references) must not be lost, it is evaluated again
+				t.Uncertain = ot.Uncertain
 			}
 			mgr.tags[name] = &t
 			if !(mgr.updatedStreamsDuringTaggingJob.IsZero() && mgr.resetStreamsDuringTaggingJob.IsZero() && mgr.addedStreamsDuringTaggingJob.IsZero()) {
@@ -1265,6 +1272,7 @@ func (mgr *Manager) UpdateTag(name string, operation UpdateTagOperation) error {
 				}
 				tag = newTag
 				mgr.tags[name] = tag
+				mgr.tagEditedDuringTaggingJob = true
 				mgr.inheritTagUncertainty()
 				mgr.startTaggingJobIfNeeded()
 				mgr.startConverterJobIfNeeded()
@@ -1360,6 +1368,7 @@ func (mgr *Manager) UpdateTag(name string, operation UpdateTagOperation) error {
 				}
 				tag = &newTag
 				mgr.tags[name] = tag
+				mgr.tagEditedDuringTaggingJob = true
 				mgr.inheritTagUncertainty()
 				mgr.tags[name].Uncertain = bitmask.LongBitmask{}
 				mgr.startTaggingJobIfNeeded()
